@@ -5,7 +5,7 @@ Import ListNotations.
 Open Scope string_scope.
 
 Inductive c08case :=
-| mk_c08 (h : hcase) (exp_doc : obj) (exp_update_c exp_recovery_c : string) (exp_deactivated : bool) (exp_origin : json)
+| mk_c08 (h : hcase) (exp_docs : list obj) (exp_doc : obj) (exp_update_c exp_recovery_c : string) (exp_deactivated : bool) (exp_origin : json)
          (all_built all_parsed anchored_ok : bool)
 | mk_c08refuse (code : nat) (impl_refused expect_refuse : bool).
 
@@ -19,14 +19,26 @@ Fixpoint last_state (steps : list hstep) (acc : option rmodel) : option rmodel :
   | s :: r => last_state r (match hs_impl s with Some x => Some x | None => acc end)
   end.
 
+(* after every step the resolved document is the one requested so far *)
+Fixpoint docs_as_requested (steps : list hstep) (eds : list obj) : bool :=
+  match steps, eds with
+  | s :: r, e :: er =>
+      andb (match hs_impl s with
+            | Some rm => match rm_doc rm with Some d => obj_equiv (doc_norm d) (doc_norm e) | None => false end
+            | None => false
+            end) (docs_as_requested r er)
+  | _, _ => true
+  end.
+
 Definition judge_c08 (c : c08case) : verdict :=
   match c with
-  | mk_c08 h ed eu er edx eo built parsed anch =>
+  | mk_c08 h eds ed eu er edx eo built parsed anch =>
       if negb built then SpecFail 1                     (* a builder refused valid input *)
       else if negb parsed then SpecFail 2               (* a built request was refused by the parser *)
       else if negb anch then SpecFail 3                 (* anchored form does not preserve the request *)
       else match judge_history h with
            | Pass =>
+             if negb (docs_as_requested (hc_steps h) eds) then SpecFail 4 else
                match last_state (hc_steps h) None with
                | Some rm =>
                    match rm_doc rm with
